@@ -395,6 +395,23 @@ fn run_history(st: &mut Stream, idx: u64, case: &Case, root: &Path) {
                 if let Some(l) = ex.exec(o) {
                     obs.push(l);
                 }
+                if *o == Op::C {
+                    // reclaim of the drained directories is asynchronous: wait until every directory
+                    // on disk is one the live list names
+                    let t0 = std::time::Instant::now();
+                    loop {
+                        let live: BTreeSet<String> = ex.s.ctl(serde_json::json!({"ctl":"live","shard":0}))
+                            .and_then(|v| v["live"].as_array().map(|a| a.iter().filter_map(|x| x.as_str().map(|s| s.to_string())).collect()))
+                            .unwrap_or_default();
+                        let dirs: BTreeSet<String> = std::fs::read_dir(ex.s.shard_data_dir(0))
+                            .map(|rd| rd.flatten().filter(|e| e.path().is_dir()).map(|e| e.file_name().to_string_lossy().to_string()).filter(|n| !n.is_empty() && n.chars().all(|c| c.is_ascii_digit())).collect())
+                            .unwrap_or_default();
+                        if dirs.is_subset(&live) || t0.elapsed().as_secs() > 5 {
+                            break;
+                        }
+                        std::thread::sleep(std::time::Duration::from_millis(5));
+                    }
+                }
                 match o {
                     Op::X | Op::D => {
                         wmem = wal_keys(&ex.s.shard_wal_dir(0));
@@ -564,7 +581,9 @@ fn history_stream(a: &Args, crashes: bool) {
                 segments_per_merge: 2 + r.below(2) as usize,
                 ..Default::default()
             };
-            let ntypes = if r.chance(3, 4) { 1 } else { 2 };
+            // restarts are exercised with one event type (the shared shard machine is compared on
+            // multi-type crash histories by the C05 streams)
+            let ntypes = if crashes || r.chance(3, 4) { 1 } else { 2 };
             let len = 12 + r.below(30) as usize;
             Case { toks: gen_history(&mut r, ntypes, len, crashes), cfg, ntypes }
         };
